@@ -582,7 +582,31 @@ PROPS['C08']['rules'] += [R5.rule_remove_empty_all_axes,
 from . import rules_round6 as R6  # noqa: E402
 PROPS['C02']['rules'] += [R6.rule_accumulator_drop]
 PROPS['C14']['rules'] += [R6.rule_selection_narrowed]
+for _pid in ('C06', 'C17', 'C02'):
+    PROPS[_pid]['rules'] += [R6.rule_compressed_matrix]
 PROPS['C03']['rules'] += [R6.rule_sniff_agrees]
+PROPS['C01']['rules'] += [R6.rule_formatter_identity, R6.rule_category_loop,
+                          R6.rule_h5_string_type]
+PROPS['C04']['rules'] += [R6.rule_h5_string_type]
+for _pid in ('C02', 'C03', 'C01'):
+    PROPS[_pid]['rules'] += [R6.rule_gzip_magic]
+PROPS['C08']['rules'] += [R6.rule_selection_kind]
+PROPS['C11']['rules'] += [R6.rule_visit_all]
+PROPS['C12']['rules'] += [R6.rule_naive_shuffle]
+PROPS['C14']['rules'] += [R6.rule_refuse_any_missing,
+                          R6.rule_subset_cleanup_axis]
+PROPS['C17']['rules'] += [R6.rule_value_buffer_dtype, R6.rule_check_all_kinds]
+PROPS['C18']['rules'] += [R6.rule_delete_key, partial(
+    R6.rule_linesplit, rels={'biom/parse.py', 'biom/cli/metadata_adder.py'})]
+PROPS['C03']['rules'].append(partial(
+    R6.rule_linesplit, rels={'biom/parse.py', 'biom/cli/table_converter.py'}))
+PROPS['C19']['rules'] += [R6.rule_presence]
+PROPS['C09']['rules'] += [R6.rule_negative_sentinel]
+PROPS['C20']['rules'] += [R6.rule_errstate_entry, R6.rule_check_all_kinds]
+PROPS['C09']['rules'].append(partial(rules_effects.rule_ef_new,
+                                     only={'merge', '_fast_merge'}))
+PROPS['C10']['rules'].append(partial(rules_effects.rule_ef_new,
+                                     only={'concat'}))
 PROPS['C14']['rules'].append(partial(
     R6.rule_whitespace_split, rels={'biom/cli/table_subsetter.py',
                                     'biom/parse.py'}))
